@@ -3,7 +3,7 @@ CONSTANTS
   Seats = {1, 2, 3}
   Included = {1, 2}
   Owner <- OwnerDistinct
-  Alphabet <- FullAlphabet
+  Alphabet <- MidAlphabet
   TimeoutBlock = 10
   MaxMsgs = 3
   CheckIncluded = TRUE
